@@ -106,8 +106,12 @@ func faultsFor(fc *FieldCase) []dataFault {
 		add("out of range for the field's kind", p, float64(1e39), p)
 	case KDur, KPDur:
 		add("unparsable duration", p, "zz", p)
-	case KStr, KPStr, KVStr, KUStr:
+	case KStr, KPStr, KVStr, KUStr, KPUStr:
 		add("object where a primitive is expected", p, obj, p)
+	case KMUCfg:
+		add("primitive where an object is expected", p+".q", uint64(5), p+".q")
+	case KURefl:
+		add("primitive where an object is expected", p, uint64(5), p)
 	case KUCfg, KCfg, KStruct, KPStruct, KInner, KPInner, KDInt:
 		add("primitive where an object is expected", p, uint64(5), p)
 	case KSInt, KSVInt, KPSInt:
